@@ -435,6 +435,7 @@ def analyze(ctx, want):
     ctx.analysed_fn(cr)
     ex, paths = run_fn(cr, F, LogModel(), max_paths=5000, desugar=r".|collect")
     main_ok = False
+    main_seen, main_bad = 0, False
     la_ok = False
     # two-phase form: the (label, prefix, automaton) of every lookahead is collected first and the clusters are drawn in a second
     # loop over the collected triples.  Each triple is then checked as if it were drawn where it was built: the second loop's
@@ -527,7 +528,10 @@ def analyze(ctx, want):
             sl = [e for e in p.events if e[0] == "call" and re.search(r"::set_label$", e[2]) and "cluster" in S.fstr(argval(e, 0))]
             labarg = argval(sl[-1], 1) if sl else None
             if S.fstr(dfa).lstrip("&*") == "compiled_dfa":
-                main_ok = S.fstr(reg).lstrip("&*") == "character_class_registry" and S.fstr(pre) in ('&*""', '""', '*""') or (S.fstr(dfa).lstrip("&*") == "compiled_dfa" and "\"\"" in S.fstr(pre))
+                this_ok = (S.fstr(reg).lstrip("&*") == "character_class_registry" and S.fstr(pre) in ('&*""', '""', '*""')) or (S.fstr(reg).lstrip("&*") == "character_class_registry" and "\"\"" in S.fstr(pre))
+                main_seen = main_seen + 1
+                main_bad = main_bad or not this_ok      # every drawing of the main automaton, on every path (not: the last one)
+                main_ok = not main_bad
             elif "nfa" in S.fstr(dfa):
                 check_cluster(p, p, c, dfa, pre, reg, labarg)
             elif elems and re.search(r"item@bb\d+", S.fstr(dfa)):
